@@ -308,6 +308,22 @@ def main(argv):
         ncrowd += 1
         words.add((tuple(case[0]), tuple(case[1]), case[2]))
         absorb(results, "crowd")
+    # histories in which threads are also moved between CPUs (OAs by the thread itself,
+    # OAr by another one): the life-cycle and the no-oversubscription clauses must
+    # hold with migrations too (generator, reference model and judge of C05)
+    import c05
+    c05._CTX.update(chk=chk, plain=plain)
+    naff = 0
+    for (shape, word), results in core.pmap(c05.run_random_case, range(150 if quick else 4000), chunksize=4):
+        for v, st in results:
+            if v is None:
+                runs += 1; naff += 1
+                continue
+            if v[0] == "inconclusive":
+                chk.note_inconclusive(v[1]); continue
+            runs += 1; naff += 1
+            if v[0].startswith(("accepts-illegal", "rejects-legal", "crash")) or v[0].startswith("timeline-differs:thread.prv"):
+                chk.report("with-affinity-events:" + v[0], v[1], v[2])
     for (cfg, word), results in core.pmap(run_random_case, range(nrandom), chunksize=4):
         words.add((tuple(cfg), tuple(word)))
         absorb(results, "random")
@@ -318,10 +334,10 @@ def main(argv):
                    "{OHx(own CPU),OHx(another CPU),OHp,OHr,OHc,OHw,OHe} x threads, extended by every possible next event, run through ovniemu "
                    "completed to Dead (and bare when not all dead); plus random histories up to length 40 on 1-3 "
                    "threads and histories of 3-4 threads taking turns on one physical CPU that end with an "
-                   "oversubscribing execute/resume. distinct_nontrivial = distinct (cpu configuration, history) words executed",
+                   "oversubscribing execute/resume, and random histories with affinity events (local and remote) on 1-2 looms. distinct_nontrivial = distinct (cpu configuration, history) words executed",
            "samples": samples, "closure_pairs": len(closure), "closure_legal_next": legal_next,
            "closure_illegal_next": illegal_next, "random_histories": nrandom,
-           "crowded_cpu_oversubscription_cases": ncrowd,
+           "crowded_cpu_oversubscription_cases": ncrowd, "histories_with_affinity_events": naff,
            "emulator_accepted": accepted, "emulator_rejected": rejected, "prv_lines_compared": lines,
            "exhaustive": True,
            "exhaustive_scope": "all histories of length <= %s on one thread (own CPU), <= %s on the virtual CPU, "
